@@ -142,6 +142,69 @@ type customFam struct {
 	universe func(i int64) *mvsfake.Universe
 	rootSets [][]mvsfake.Req
 	desc     any
+	allPairs bool // no reduction to canonical pairs (unreachable decoy tags carry requirements on purpose)
+}
+
+// equalPrecedenceFamily: project x carries three tags of EQUAL semver precedence on three
+// different commits with different dawn.toml contents: x/v1.2, x/v1.2.0 and x/v1.2.0+hotfix
+// (all six assignments of the tags to revisions 1..3; each content requires none / y / z).
+// u@v1.0.0 requires x@v1.2.0. A request for x@v1.2.0 must be answered from exactly the commit
+// tagged x/v1.2.0.
+func equalPrecedenceFamily() *customFam {
+	const addr = "example.com"
+	px, py, pz, pu := addr+"/x", addr+"/y", addr+"/z", addr+"/u"
+	tags := []string{"v1.2", "v1.2.0", "v1.2.0+hotfix"}
+	perms := [][3]int{{1, 2, 3}, {1, 3, 2}, {2, 1, 3}, {2, 3, 1}, {3, 1, 2}, {3, 2, 1}}
+	f := &customFam{count: 6 * 27, allPairs: true, desc: map[string]any{"x": tags, "u": "v1.0.0 requires x@v1.2.0", "y": "v1.0.0", "z": "v1.0.0"}}
+	f.universe = func(i int64) *mvsfake.Universe {
+		perm := perms[i%6]
+		i /= 6
+		r := mvsfake.RepoSpec{Addr: addr, NRevs: 6, Branches: map[string]int{"main": 6}, Default: "main"}
+		for k, tg := range tags {
+			var rq []mvsfake.Req
+			switch i % 3 {
+			case 1:
+				rq = []mvsfake.Req{{Path: py, Version: "v1.0.0"}}
+			case 2:
+				rq = []mvsfake.Req{{Path: pz, Version: "v1.0.0"}}
+			}
+			i /= 3
+			r.Tags = append(r.Tags, mvsfake.Tag{Dir: "x", Version: tg, Rev: perm[k], Requires: rq})
+		}
+		r.Tags = append(r.Tags, mvsfake.Tag{Dir: "y", Version: "v1.0.0", Rev: 4}, mvsfake.Tag{Dir: "z", Version: "v1.0.0", Rev: 5},
+			mvsfake.Tag{Dir: "u", Version: "v1.0.0", Rev: 6, Requires: []mvsfake.Req{{Path: px, Version: "v1.2.0"}}})
+		return &mvsfake.Universe{Repos: []mvsfake.RepoSpec{r}}
+	}
+	x, u, y, z := mvsfake.Req{Path: px, Version: "v1.2.0"}, mvsfake.Req{Path: pu, Version: "v1.0.0"}, mvsfake.Req{Path: py, Version: "v1.0.0"}, mvsfake.Req{Path: pz, Version: "v1.0.0"}
+	f.rootSets = [][]mvsfake.Req{{x}, {u}, {u, y}, {x, z}, {z, u, x}}
+	return f
+}
+
+// nonCanonicalFamily: a@v1.0.0 and b@v1.0.0 both require x, each at one of v1.2.0,
+// v1.2.0+hotfix, v1.2, v01.2.0 (x carries the tags v1.2.0 and v1.2.0+hotfix on different
+// commits with different requirements). A dawn.toml with a non-canonical requirement version
+// is rejected by the configuration loader: the only admissible outcome is an error, whichever
+// requirer is downloaded first.
+func nonCanonicalFamily() *customFam {
+	const addr = "example.com"
+	px, py, pz, pa, pb := addr+"/x", addr+"/y", addr+"/z", addr+"/a", addr+"/b"
+	vers := []string{"v1.2.0", "v1.2.0+hotfix", "v1.2", "v01.2.0"}
+	f := &customFam{count: 16, allPairs: true, desc: map[string]any{"a,b require x at": vers, "x": []string{"v1.2.0", "v1.2.0+hotfix"}}}
+	f.universe = func(i int64) *mvsfake.Universe {
+		va, vb := vers[i%4], vers[i/4%4]
+		r := mvsfake.RepoSpec{Addr: addr, NRevs: 6, Branches: map[string]int{"main": 6}, Default: "main", Tags: []mvsfake.Tag{
+			{Dir: "a", Version: "v1.0.0", Rev: 1, Requires: []mvsfake.Req{{Path: px, Version: va}}},
+			{Dir: "b", Version: "v1.0.0", Rev: 2, Requires: []mvsfake.Req{{Path: px, Version: vb}}},
+			{Dir: "x", Version: "v1.2.0", Rev: 3, Requires: []mvsfake.Req{{Path: py, Version: "v1.0.0"}}},
+			{Dir: "x", Version: "v1.2.0+hotfix", Rev: 4, Requires: []mvsfake.Req{{Path: pz, Version: "v1.0.0"}}},
+			{Dir: "y", Version: "v1.0.0", Rev: 5},
+			{Dir: "z", Version: "v1.0.0", Rev: 6},
+		}}
+		return &mvsfake.Universe{Repos: []mvsfake.RepoSpec{r}}
+	}
+	a, b := mvsfake.Req{Path: pa, Version: "v1.0.0"}, mvsfake.Req{Path: pb, Version: "v1.0.0"}
+	f.rootSets = [][]mvsfake.Req{{a, b}, {b, a}, {a}, {b}}
+	return f
 }
 
 // pseudoFamily: one repository on a well-known host (github.com/o/r) with the projects a, b
@@ -500,6 +563,110 @@ func (c *checker) interrupted(p *pairCtx) {
 	}
 }
 
+// invalidPair: some reachable dawn.toml names a non-canonical requirement version. Every
+// resolution must fail: cold, warm, reversed declaration order, and with the download of each
+// reachable project version parked until all the others have finished.
+func (c *checker) invalidPair(p *pairCtx) {
+	t := p.t
+	const sig = "C10:non-canonical-requirement-version-accepted"
+	judge := func(run string, bl map[string]string, err error) {
+		t.Add("evaluations", 1)
+		t.Add("resolutions-that-must-fail", 1)
+		if err != nil {
+			t.Outcome("classes", p.f.Name+": rejected")
+			return
+		}
+		got := map[string]string{}
+		for k, v := range bl {
+			if k != "" {
+				got[k] = v
+			}
+		}
+		t.Violation(sig, p.size, fmt.Sprintf("[%s] roots %v, %s: a reachable dawn.toml names a non-canonical requirement version, the resolution must fail; got %s", p.f.Name, p.rootStr(), run, mvsfake.FormatList(got)),
+			p.mk(run, mvsfake.FormatList(got)))
+	}
+	guarded := func(run string, res *mvs.Resolver) bool {
+		out, err, st := c.g.Run(t, "build-list", func() (any, error) { return mvs.BuildList(c.ctx, config(p.roots, false, false), res) })
+		switch st {
+		case mvsfake.Skipped:
+			return false
+		case mvsfake.Hung:
+			t.Violation("C10:hang", p.size, fmt.Sprintf("BuildList did not return within 10s (%s), roots %v", run, p.rootStr()), p.mk(run, "no result"))
+			return false
+		case mvsfake.Panicked:
+			t.Violation("C10:panic", p.size, fmt.Sprintf("BuildList panicked (%s): %v", run, err), p.mk(run, err.Error()))
+			return false
+		}
+		bl, _ := out.(map[string]string)
+		judge(run, bl, err)
+		return true
+	}
+	cacheDir := c.freshDir("cache-inv")
+	r1 := mvs.NewResolver(cacheDir, p.w.Dialer(), nil)
+	if !guarded("cold run", r1) || !guarded("same-resolver-again run", r1) || !guarded("new-resolver-warm-cache-dir run", mvs.NewResolver(cacheDir, p.w.Dialer(), nil)) {
+		return
+	}
+	ur := *p.u
+	ur.ReverseDecl = !p.u.ReverseDecl
+	wr := mvsfake.Build(&ur)
+	if !guarded("reversed-declaration-order-cold run", mvs.NewResolver(c.freshDir("cache-invr"), wr.Dialer(), nil)) {
+		return
+	}
+	// forced download orders: one reachable version is parked until the rest has settled
+	var nodes []mvsfake.Req
+	for m := range p.ref.Reach {
+		if p.w.FetchKey(m) != "?" {
+			nodes = append(nodes, m)
+		}
+	}
+	sort.Slice(nodes, func(i, j int) bool { return nodes[i].String() < nodes[j].String() })
+	type result struct {
+		bl  map[string]string
+		err error
+	}
+	for _, m := range nodes {
+		wp := mvsfake.Build(p.u)
+		h := &mvsfake.Hooks{DieAfterFiles: -1, ParkAfterFiles: 0, ParkKey: wp.FetchKey(m), Parked: make(chan struct{}, 1), Release: make(chan struct{})}
+		wp.SetHooks(h)
+		res := mvs.NewResolver(c.freshDir("cache-inv"), wp.Dialer(), nil)
+		done := make(chan result, 1)
+		go func() {
+			bl, err := mvs.BuildList(c.ctx, config(p.roots, false, false), res)
+			done <- result{bl, err}
+		}()
+		run := fmt.Sprintf("download of %s finishes last", m)
+		select {
+		case <-h.Parked:
+			// let everything else finish: wait until no further download starts
+			last, quiet := wp.Fetches(), 0
+			for i := 0; i < 200 && quiet < 5; i++ {
+				time.Sleep(time.Millisecond)
+				if n := wp.Fetches(); n != last {
+					last, quiet = n, 0
+				} else {
+					quiet++
+				}
+			}
+			close(h.Release)
+			t.Add("forced-download-orders", 1)
+		case r := <-done:
+			// the resolution failed before it got to m
+			judge(run+" (never started)", r.bl, r.err)
+			continue
+		case <-time.After(10 * time.Second):
+			t.Violation("C10:hang", p.size, "BuildList neither finished nor reached the parked download within 10s", p.mk(run, "no result"))
+			close(h.Release)
+			continue
+		}
+		select {
+		case r := <-done:
+			judge(run, r.bl, r.err)
+		case <-time.After(10 * time.Second):
+			t.Violation("C10:hang", p.size, "a released resolution did not finish within 10s", p.mk(run, "no result"))
+		}
+	}
+}
+
 // concurrent: several BuildList calls at the same time on ONE Resolver with cold caches.
 func (c *checker) concurrent(p *pairCtx) {
 	t, ref := p.t, p.ref
@@ -667,6 +834,9 @@ func main() {
 				{Dir: "a", Versions: []string{"v1.9.10", "v1.10.0", "v1.10.9"}}, {Dir: "b", Versions: []string{"v1.0.0-rc.9", "v1.0.0-rc.10", "v1.0.0"}}}}, dupRoots: true},
 			famT{Family: &mvsfake.Family{Name: "concurrent resolutions on one shared resolver: a(2), c, c@v2", Addr: "example.com", Projects: []mvsfake.ProjectDef{vo1, one("c", "v1.0.0"), one("c", "v2.0.0")}}, concurrent: true})
 	}
+	fams = append(fams,
+		famT{Family: &mvsfake.Family{Name: "tags of equal precedence on different commits: x/v1.2, x/v1.2.0, x/v1.2.0+hotfix"}, custom: equalPrecedenceFamily()},
+		famT{Family: &mvsfake.Family{Name: "requirement versions that are not canonical (build metadata, short form, leading zero)"}, custom: nonCanonicalFamily()})
 	fams = append(fams, famT{&mvsfake.Family{Name: "monorepo on a well-known host, tagged versions and pseudo-versions of untagged revisions"}, false, false, pseudoFamily(), false})
 	fcount := func(f famT) int64 {
 		if f.custom != nil {
@@ -770,7 +940,12 @@ func main() {
 						}
 					}
 				}
-				if !canonical {
+				if !canonical && !(f.custom != nil && f.custom.allPairs) {
+					continue
+				}
+				if ref.Invalid {
+					t.Add("pairs", 1)
+					c.invalidPair(&pairCtx{f: f.Family, ui: ui, u: u, w: w, roots: roots, ref: ref, t: t, size: 10*u.Edges() + len(roots)})
 					continue
 				}
 				if !ref.OK {
@@ -831,6 +1006,7 @@ func main() {
 		"a root set may name one project under two or three requirement names at different versions; the reference takes the maximum; such a pair is resolved 8 times (map insertion order alternated) because the order in which Go iterates the requirement map is random",
 		"crash model of the interrupted-fetch family: process death (os.Exit in a child process that shares the cache directory and the temp directory) at every point between two file writes of a checkout; files written so far persist, nothing deferred runs, no file is torn. A checkout writes a stale legacy .dawnconfig (different requirements) first, then dawn.toml, then BUILD.dawn and src/lib.txt. After the death a fresh Resolver in the parent must compute the reference build list. Interleaving model: one download parked between two file writes while a second Resolver on the same cache directory resolves",
 		"concurrent resolutions: a BuildList on a cold shared Resolver is parked inside the download of one reachable project version (every reachable version in turn) while a second BuildList runs on the SAME Resolver (same roots; and roots = just that version); both must equal their reference. Plus 3 free-running rounds per pair of 4 concurrent BuildLists on one cold shared Resolver",
+		"a tag is any <dir>/<valid semver> name (v1.2, v1.2.0+hotfix are tags, as for a git server); a requirement on x@v1.2.0 is answered by the commit tagged exactly x/v1.2.0. A dawn.toml whose requirement version is not canonical (build metadata, short form, leading zero) is rejected by dawn's configuration loader, so every resolution that reaches it must fail - cold, warm and in every forced download order (each reachable version's download parked until the others have settled)",
 		"hang = no result within 10 s (normal cost < 1 ms)",
 	}
 	r.Finish(vlib.Coverage{
